@@ -15,6 +15,7 @@ def build(eng, tier):
     # of the backing tensor's own name setter) precedes the first store (effect targets shared with C06)
     from . import C06, usedef_targets
     usedef_targets.build(eng, "C01")
+    usedef_targets.add_resize_outputs_effect_target(eng)
     C06.add_rename_target(eng)
     C06.add_value_name_target(eng)
     from . import init_targets
